@@ -15,7 +15,7 @@ def gen_consts(steps, **over):
              OutAliases=['oa1', 'oa2'], Vals=['v1', 'v2'], Excs=['E1'],
              Bodies=['plain', 'nestSame', 'nestOther'], InnerCall=('ia1', 2),
              OutResults=[('val', 'v1'), ('val', 'v2'), ('exc', 'E1')], Ends=['ret', 'raise'],
-             Classes=[K('K1'), K('K1c')],
+             Classes=[K('K1', copyOn=True), K('K1c')], Ctl=['mutate'],
              MaxSteps=steps, MaxRuns=2, MaxRecs=1, Modes=['same'])
     c.update(over)
     return consts(**c)
@@ -41,9 +41,9 @@ def run(rep, tier, seed):
     try:
         if tier == 'quick':
             chk.check('chk', gen_consts(3, InCalls=[('ia1', 1), ('ia1', 2), ('ia2', 1), ('ia3', 0)],
-                                        Classes=[K('K1')]), invariants=INVS)
+                                        Classes=[K('K1', copyOn=True)]), invariants=INVS)
             chk.generate('gen2', gen_consts(2), cassettes=('memory', 'file', 's3'), n_conc=2, sample=2500, cap=4000)
-            chk.generate('gen3', gen_consts(3, Classes=[K('K1')], Bodies=['plain'],
+            chk.generate('gen3', gen_consts(3, Classes=[K('K1', copyOn=True)], Bodies=['plain'],
                                             InCalls=[('ia1', 1), ('ia1', 2), ('ia2', 1)], OutAliases=['oa1'],
                                             Vals=['v1'], OutResults=[('val', 'v1'), ('exc', 'E1')]),
                          cassettes=('memory',), n_conc=2, sample=2500, cap=4000)
